@@ -154,8 +154,12 @@ def validate(spec_name, trace_path, tag, max_lines=60000, par=None, timeout=3000
     cfg = SPEC / "trace" / (spec_name + ".cfg")
     wd = WORK / tag / "tv"
     shutil.rmtree(wd, ignore_errors=True)
-    chunks, nlines = split_trace(trace_path, wd, max_lines)
     par = par or max(1, min(12, NCPU - 2))
+    with open(trace_path) as f:
+        total = sum(1 for _ in f)
+    # balance the chunks over the TLC processes (each TLC start costs ~1.5 s)
+    max_lines = max(1500, min(max_lines, -(-total // par)))
+    chunks, nlines = split_trace(trace_path, wd, max_lines)
     t0 = time.time()
 
     def one(i_chunk):
